@@ -166,12 +166,30 @@ Lemma find_user_none tok us : find_user tok us = None -> forall u, In u us -> u_
 Proof. unfold find_user. intros H u Hu. pose proof (find_none _ _ H _ Hu) as N. apply Z.eqb_neq; auto. Qed.
 
 Lemma in_push_same tok q us v :
-  In v (map (push_query tok q) us) ->
+  In v (push_query tok q us) ->
   exists u, In u us /\ u_tok v = u_tok u /\ u_ord v = u_ord u /\ (u_qs u <> [] -> u_qs v <> []).
 Proof.
-  intros H. apply in_map_iff in H. destruct H as (u & E & Hu). unfold push_query in E.
-  exists u. destruct (u_tok u =? tok); subst v; simpl; repeat split; auto.
-  intros _. destruct (u_qs u); simpl; congruence.
+  induction us as [|a r IH]; simpl; intros H; [destruct H|].
+  destruct (u_tok a =? tok).
+  - destruct H as [H|H].
+    + exists a. subst v; simpl. repeat split; auto. intros _. destruct (u_qs a); simpl; congruence.
+    + exists v. auto.
+  - destruct H as [H|H].
+    + exists a. subst v. auto.
+    + destruct (IH H) as (u & Hu & E). exists u. auto.
+Qed.
+
+Lemma push_keeps tok q us u :
+  In u us -> exists v, In v (push_query tok q us) /\ u_tok v = u_tok u /\ u_ord v = u_ord u.
+Proof.
+  induction us as [|a r IH]; simpl; intros H; [destruct H|].
+  destruct (u_tok a =? tok).
+  - destruct H as [H|H].
+    + subst a. eexists. split; [left; reflexivity|]. simpl. auto.
+    + exists u. simpl. auto.
+  - destruct H as [H|H].
+    + subst a. exists u. simpl. auto.
+    + destruct (IH H) as (v & Hv & E). exists v. simpl. auto.
 Qed.
 
 Lemma in_cancelled q us v :
@@ -527,9 +545,8 @@ Proof.
       { intros v Hv. simpl in Hv. apply in_push_same in Hv. destruct Hv as (u & Hu & E1 & E2 & E3).
         destruct (OK _ Hu). split; auto. simpl. lia. }
       assert (WB1 : user_waiting B s1).
-      { destruct WB as (u & Hu & Tu). exists (push_query tok (q_next s) u). split.
-        - simpl. apply in_map. auto.
-        - unfold push_query. destruct (u_tok u =? tok); auto. }
+      { destruct WB as (u & Hu & Tu). destruct (push_keeps tok (q_next s) _ _ Hu) as (v & Hv & E1 & E2).
+        exists v. split; [exact Hv|congruence]. }
       destruct (qnext_rr true A B s1 s' e NE OK1 WB1 H GB) as [R1 _].
       change e with ([] ++ e). eapply RR_comp; eauto. apply RR_pres; auto.
       apply bef_same_users. intros v Hv. simpl in Hv. apply in_push_same in Hv.
@@ -625,7 +642,7 @@ Proof.
   - apply waits_through_false_true; auto.
 Qed.
 
-(* ---- the code as it is (fx = false) with capacity changes: witnesses of finding F-C29 ---- *)
+(* ---- the variant before the fixes (fx = false) with capacity changes: witnesses of finding F-C29 ---- *)
 
 Lemma qreach_of_run fx m ops : 0 <= m -> qvalid fx (qinit m) ops -> qreach fx (fst (qrun fx (qinit m) ops)).
 Proof. intros. apply qreach_run; auto. constructor; auto. Qed.
